@@ -566,6 +566,17 @@ theorem C17_seq_counterexample_sf_args_prefix_of_first_assignment :
     (WTs wSfArgsTwice.ss (getOk (fromAST wSfArgsTwice.ss)) = true) ∧
     isOk wSfArgsTwice.run = true ∧ WTs wSfArgsTwice.ss (getOk wSfArgsTwice.run) = false := by decide +kernel
 
+/-- Since /repo b52532c an assignment declared by a rule (`add_assignment`, `add_option`) gets its own
+    `*Argument` on every application; before, every application received the rule's own pointer
+    (`asIRPreFix`), so a later in-place rename on one option renamed it in all of them. -/
+theorem C17_rule_argument_private_since_fix (ss : Schemas) (p : Path) (c : ArgCell) (k : Val) (he : Bool)
+    (env : List (VEnvFieldOf VValue)) :
+    (VValue.mk (some c) k he env).asIR ss p = .ok (.arg { c with id := 0 }) ∧
+    (VValue.mk (some c) k he env).asIRPreFix ss p = .ok (.arg c) := by
+  constructor
+  · simp [VValue.asIR, VValue.asIRPreFix, AValue.mapCells, zeroCell]
+  · simp [VValue.asIRPreFix]
+
 /-! ## frame at the level of the whole rewriter -/
 
 /-- the property at full strength for the smallest case — no rule at all: nothing changes -/
